@@ -60,3 +60,22 @@ claim("C15", "grammar-bounded enumeration of field-expression programs (depth 2/
       "Programs for field/scalar/group stack machines are enumerated exhaustively within the stated grammar depth and alphabets and executed on the public arithmetic types; "
       "every GE_BASE and BI table entry is reached. Ge::from_bytes returning -P is a recorded known finding.",
       "Trusts python integer arithmetic; operands >= 2^255 not generated.", "DESIGN.md section 3 C15")
+
+claim("C16", "identical bounded-exhaustive workloads executed by 4 differently compiled executors (baseline/SSE2, +sse4.1, +avx, +avx2) plus the portable ChaCha engine via hook; per-step model comparison and cross-build transcript identity",
+      "SHA-224/256 with k = 1..20 blocks per call at byte offsets 0..31 and varying chaining states, BLAKE2b/s keyed/unkeyed with and without the last-block flag, the complete C03 grid, "
+      "HMAC/PBKDF2/scrypt/Argon2 spot programs and the C01 shards, on every x86-64 feature set the host has; transcripts must be byte-identical and equal to the model.",
+      "Only x86-64 feature sets of the host CPU; aarch64 path not buildable here.", "DESIGN.md section 3 C16")
+claim("C17", "the complete C12-C15 case sets executed through the default and the force-32bits executors; per-step model comparison and cross-build transcript identity; build failure is a violation",
+      "Every case of C12-C15 (same tier) runs on both limb representations; the ordered transcripts must be identical and equal to the python models.",
+      "Feature-forced 32-bit backend on x86-64 only (no real 32-bit target installed).", "DESIGN.md section 3 C17")
+claim("C18", "exhaustive tables (all 2^16 byte pairs, all pairs over a 200-value u64 boundary set) and bounded-exhaustive enumeration of array/slice/choice/option/swap/set/MacResult/Tag cases vs python operators",
+      "Every helper is evaluated on the complete stated operand sets (arrays 0..40 bytes differing at every single position, every (choice, array pair)).",
+      "Trusts python comparison operators; masked swap/set reached through cfg-guarded public wrappers.", "DESIGN.md section 3 C18")
+claim("C19", "2-safety by self-composition over an enumerated secret alphabet: instruction-address traces (valgrind lackey; ptrace single-step cross-check in thorough) of the release victim must be identical for every secret",
+      "For each of 12 operations every secret of the alphabet (single-bit values, 00/FF, patterns; every mismatch position for comparisons) is executed under an instruction-level monitor "
+      "and the full program-counter sequence between two markers is compared with the baseline's; the monitor is self-tested on a deliberately leaky operation in every run.",
+      "Instruction addresses only (data addresses reported as information); this compiler, baseline x86-64 release build; not a proof outside the alphabet.", "DESIGN.md section 3 C19")
+claim("C20", "the entire quick corpus of C01-C15 re-executed on debug and release+overflow-checks+debug-assertions executors with cross-build transcript identity, counter-crossing programs via hooks, and an enumerated misuse corpus that must be refused on all builds (memcheck in thorough)",
+      "About 5.8 million in-domain programs per run on the two checked builds must neither panic nor differ; BLAKE2 and cipher counters are preset next to their word boundaries; "
+      "every documented-invalid argument shape per entry point must panic or return an error on all three builds.",
+      "Hash length counters (2^61 bytes) not explorable; Argon2 unchecked parameter ranges outside the claim.", "DESIGN.md section 3 C20")
